@@ -1117,10 +1117,16 @@ func EvalExpression(exprSrc string, rootValue interface{}, stdout io.Writer) (*C
 	ev.root = rootCell
 	ev.ruleRoot = rootCell
 	cell, err := ev.evalExpr(expr)
-	if err != nil && err != errExit {
+	switch err {
+	case nil:
+		return cell, nil
+	case errNext, errBreak, errContinue, errReturn:
+		// control flow that escaped the expression, the result is null
+		return NewCell(NewValue(nil)), nil
+	default:
+		// includes errExit, which the caller has to handle
 		return nil, err
 	}
-	return cell, nil
 }
 
 type InputFile struct {
@@ -1171,6 +1177,9 @@ func EvalProgram(progSrc string, files []InputFile, rootSelectors []string, stdo
 				for _, rootSelector := range rootSelectors {
 					cell, err := EvalExpression(rootSelector, rootValue, stdout)
 					if err != nil {
+						if err == errExit {
+							return &ev, nil
+						}
 						return &ev, err
 					}
 					rootCells = append(rootCells, cell)
